@@ -255,6 +255,11 @@ type ScanOpts struct {
 	SHA256      bool
 	// Ignored tells whether a path is ignored (nil: nothing is).
 	Ignored func(path string, directory bool) bool
+	// Decide, if non-nil, replaces Ignored with the full ignorer contract:
+	// status 0 nominal, 1 ignored, 2 unignored, plus "continue traversal" (an
+	// ignored or masked directory that may hold unignored content is still
+	// traversed, under an ignore mask, and reported as a phantom directory).
+	Decide func(path string, directory bool) (status int, continueTraversal bool)
 }
 
 // TemporaryPrefix is the documented prefix of Mutagen's temporary files.
@@ -299,10 +304,10 @@ func PortableTarget(linkPath, target string) bool {
 // does not decompose Unicode (what this sandbox provides). Problem texts are
 // set to "*" (compare with EqualModuloProblems).
 func Expect(n *Node, o ScanOpts) *core.Entry {
-	return expect("", n, o, true)
+	return expect("", n, o, false)
 }
 
-func expect(path string, n *Node, o ScanOpts, root bool) *core.Entry {
+func expect(path string, n *Node, o ScanOpts, mask bool) *core.Entry {
 	if n == nil {
 		return nil
 	}
@@ -312,6 +317,9 @@ func expect(path string, n *Node, o ScanOpts, root bool) *core.Entry {
 			return &core.Entry{Kind: core.EntryKind_Problematic, Problem: "*"}
 		}
 		e := &core.Entry{Kind: core.EntryKind_Directory}
+		if mask {
+			e.Kind = core.EntryKind_PhantomDirectory
+		}
 		for _, name := range n.Names() {
 			if strings.HasPrefix(name, TemporaryPrefix) {
 				continue
@@ -320,7 +328,11 @@ func expect(path string, n *Node, o ScanOpts, root bool) *core.Entry {
 				e.Contents = map[string]*core.Entry{}
 			}
 			if !utf8.ValidString(name) {
-				e.Contents[strings.ToValidUTF8(name, "�")+" (non-UTF-8)"] = &core.Entry{Kind: core.EntryKind_Problematic, Problem: "*"}
+				if mask {
+					e.Contents[strings.ToValidUTF8(name, "�")+" (non-UTF-8)"] = &core.Entry{Kind: core.EntryKind_Untracked}
+				} else {
+					e.Contents[strings.ToValidUTF8(name, "�")+" (non-UTF-8)"] = &core.Entry{Kind: core.EntryKind_Problematic, Problem: "*"}
+				}
 				continue
 			}
 			c := n.Children[name]
@@ -333,11 +345,29 @@ func expect(path string, n *Node, o ScanOpts, root bool) *core.Entry {
 				e.Contents[name] = &core.Entry{Kind: core.EntryKind_Untracked}
 				continue
 			}
-			if o.Ignored != nil && o.Ignored(cp, c.Kind == Dir) {
+			childMask := mask
+			if o.Decide != nil {
+				status, cont := o.Decide(cp, c.Kind == Dir)
+				switch status {
+				case 0:
+					if mask && !cont {
+						e.Contents[name] = &core.Entry{Kind: core.EntryKind_Untracked}
+						continue
+					}
+				case 1:
+					if !cont {
+						e.Contents[name] = &core.Entry{Kind: core.EntryKind_Untracked}
+						continue
+					}
+					childMask = true
+				default:
+					childMask = false
+				}
+			} else if o.Ignored != nil && o.Ignored(cp, c.Kind == Dir) {
 				e.Contents[name] = &core.Entry{Kind: core.EntryKind_Untracked}
 				continue
 			}
-			e.Contents[name] = expect(cp, c, o, false)
+			e.Contents[name] = expect(cp, c, o, childMask)
 		}
 		return e
 	case File:
